@@ -124,11 +124,15 @@ func (g *gen) applyGhostSets(entry bool, callee string, nth int, results []Val, 
 	if g.fc == nil || g.isInline {
 		return
 	}
+	atReturn := callee == "<return>"
 	for _, gs := range g.fc.GhostSets {
-		if gs.AtEntry != entry {
+		if gs.AtReturn != atReturn {
 			continue
 		}
-		if !entry && (strings.TrimPrefix(gs.Callee, "(") != strings.TrimPrefix(callee, "(") || gs.Nth != nth) {
+		if !atReturn && gs.AtEntry != entry {
+			continue
+		}
+		if !atReturn && !entry && (strings.TrimPrefix(gs.Callee, "(") != strings.TrimPrefix(callee, "(") || gs.Nth != nth) {
 			continue
 		}
 		cl := Clause{Label: "set." + gs.Name, Src: gs.Src, File: gs.File, Line: gs.Line}
